@@ -31,7 +31,7 @@ CONSTANTS
     Orders,       \* multiset generator: allowed totals on the reactant side
     MaxViol,      \* multiset generator: systems of >= 2 reactions only use reactions violating <= MaxViol keys
     OnlyBalanced, \* generator offers balanced reactions only
-    Inactive,     \* generator also offers every reaction decorated with one inactive species on both sides
+    Inactive,     \* generator also offers every reaction with one spectator in parentheses (both sides / reactant side only)
     AllowReverse, \* generator may add the reverse of the first reaction as second reaction
     MaxRxns,
     KChoices(_),  \* rate constants offered for the reaction at position p
@@ -42,8 +42,9 @@ CONSTANTS
     StepCap,      \* the advertised step is never larger than this (rational)
     EmitDyn,      \* Finish is offered in a concentration state (one case per system and state)
     Times,        \* output times handed to the integrator with each case (sequence of rationals)
-    Tol           \* [atol, rtol : rationals requested from the integrator, guard : Nat]: a result agrees
-                  \* with the reference when |y - yref| <= guard * (atol + rtol * scale)
+    Tol           \* [atol, rtol : rationals requested from the integrator, guard : Nat, steprtol]: a result agrees
+                  \* with the reference when |y - yref| <= guard * (atol + rtol * scale); the advertised step
+                  \* agrees with MaxEulerStep when it is within the relative tolerance steprtol
 
 VARIABLES subs, rxns, built, c, c0, nsteps, last, stage
 vars == <<subs, rxns, built, c, c0, nsteps, last, stage>>
@@ -73,6 +74,8 @@ IsRxn(r, n) ==
     /\ Len(r.reac) = n /\ Len(r.prod) = n /\ Len(r.ireac) = n /\ Len(r.iprod) = n
     /\ \A i \in 1..n : r.reac[i] \in Nat /\ r.prod[i] \in Nat /\ r.ireac[i] \in Nat /\ r.iprod[i] \in Nat
     /\ r.k[2] > 0
+    \* a written reaction changes something (the library refuses to construct one that does not)
+    /\ \E i \in 1..n : r.prod[i] + r.iprod[i] # r.reac[i] + r.ireac[i]
 Net(r) == [i \in 1..Len(r.reac) |-> r.prod[i] - r.reac[i] + r.iprod[i] - r.ireac[i]]
 NetMatrix(rs) == [i \in 1..Len(rs) |-> Net(rs[i])]
 Order(r) == VSum(r.reac)
@@ -108,8 +111,9 @@ RankB(ss) == IF KeysOf(ss) = {} THEN 0 ELSE LA!Rank(BMatrix(ss))
 QSumOver(n, f(_)) == QSumSeq([i \in 1..n |-> f(i)])
 QProdOver(n, f(_)) == QProdSeq([i \in 1..n |-> f(i)])
 RateOf(r, cc) == QMul(r.k, QProdOver(Len(cc), LAMBDA i : QPow(cc[i], r.reac[i])))
-F(rs, cc) == [i \in 1..Len(cc) |->
-                 QSumOver(Len(rs), LAMBDA j : QMul(Q(Net(rs[j])[i]), RateOf(rs[j], cc)))]
+F(rs, cc) == LET rates == [j \in 1..Len(rs) |-> RateOf(rs[j], cc)]
+                 nets == [j \in 1..Len(rs) |-> Net(rs[j])]
+             IN  [i \in 1..Len(cc) |-> QSumOver(Len(rs), LAMBDA j : QMul(Q(nets[j][i]), rates[j]))]
 Euler(rs, cc, h) == LET f == F(rs, cc) IN [i \in 1..Len(cc) |-> QAdd(cc[i], QMul(h, f[i]))]
 QVec(v) == [i \in 1..Len(v) |-> Q(v[i])]
 BTimes(ss, v) == LET B == BMatrix(ss)
@@ -133,6 +137,21 @@ QMatVec(G, v) == [a \in 1..Len(G) |-> QSumOver(Len(v), LAMBDA b : QMul(G[a][b], 
 Inf == <<1, 0>>
 IsInf(q) == q[2] = 0
 QMinSet(S) == CHOOSE a \in S : \A b \in S : QLe(a, b)
+(* comparison of non-negative rationals without multiplication (Euclid on the continued       *)
+(* fractions): step limits with rate constants over six decades overflow 32 bit otherwise     *)
+RECURSIVE CmpPos(_, _, _, _)
+CmpPos(n1, d1, n2, d2) ==
+    LET q1 == n1 \div d1  q2 == n2 \div d2  r1 == n1 % d1  r2 == n2 % d2
+    IN  IF q1 # q2 THEN (IF q1 < q2 THEN -1 ELSE 1)
+        ELSE IF r1 = 0 /\ r2 = 0 THEN 0
+        ELSE IF r1 = 0 THEN -1
+        ELSE IF r2 = 0 THEN 1
+        ELSE CmpPos(d2, r2, d1, r1)
+QLeSafe(a, b) == IF a[1] < 0 \/ b[1] < 0 THEN QLe(a, b)
+                 ELSE IF IsInf(b) THEN TRUE
+                 ELSE IF IsInf(a) THEN FALSE
+                 ELSE CmpPos(a[1], a[2], b[1], b[2]) <= 0
+QMinSetSafe(S) == CHOOSE a \in S : \A b \in S : QLeSafe(a, b)
 ElemKeys(s) == { s.comp[j][1] : j \in { i \in 1..Len(s.comp) : s.comp[i][1] # 0 /\ s.comp[i][2] > 0 } }
 Total(ss, cc, key) == QSumOver(Len(cc), LAMBDA j : QMul(Q(CompGet(ss[j], key)), cc[j]))
 (* a molecule holding a atoms of an element cannot be more concentrated than total/a; the     *)
@@ -149,7 +168,7 @@ StepLimit(f, cc, ub, i) ==
     ELSE QDiv(cc[i], QNeg(f[i]))
 MaxEulerStep(ss, rs, cc) ==
     LET f == F(rs, cc)  ub == Bounds(ss, cc)
-    IN  QMinSet({ StepLimit(f, cc, ub, i) : i \in 1..Len(cc) } \cup {StepCap})
+    IN  QMinSetSafe({ StepLimit(f, cc, ub, i) : i \in 1..Len(cc) } \cup {StepCap})
 
 ------------------------------------------------------------------------------
 (* analytic elimination of a concentration from the invariants (C05, last clause):            *)
@@ -300,7 +319,7 @@ ReductionKeepsAcceptance ==
 RejectedNamesAKey == built = "rejected" => AllViolatedKeys(subs, rxns) # {}
 
 (* composition vectors are invariants of the kinetic right-hand side at every state visited *)
-RatesConserve == (InDyn /\ Accepted) => IsQZeroVec(BTimes(subs, F(rxns, c)))
+RatesConserve == (InDyn /\ Accepted /\ last # "safe") => IsQZeroVec(BTimes(subs, F(rxns, c)))
 (* ... and along every Euler step, for any rational h, also when the step leaves the box *)
 ConservationAction ==
     [][(stage = "dyn" /\ stage' = "dyn" /\ c0' = c0 /\ nsteps' = nsteps + 1) => BTimes(subs, c') = BTimes(subs, c)]_vars
@@ -330,7 +349,7 @@ BoundDominatesGrid ==
                 (\A r \in rows : LA!Dot(B[r], x) = tot[r]) => \A i \in 1..NS : QLe(Q(x[i]), ub[i])
 (* first-order systems: the generator matrix is the right-hand side *)
 GeneratorIsRhs ==
-    (InDyn /\ FirstOrder(rxns)) => QMatVec(GenMatrix(rxns, NS), c) = F(rxns, c)
+    (InDyn /\ last = "set" /\ FirstOrder(rxns)) => QMatVec(GenMatrix(rxns, NS), c) = F(rxns, c)
 
 ------------------------------------------------------------------------------
 (* reaction text in the notation the library reads: "2 A + B -> C + (D); k" *)
@@ -387,11 +406,25 @@ Class ==
 QMaxSet(S) == CHOOSE a \in S : \A b \in S : QLe(b, a)
 Scale(ss, cc) == LET fin == { b \in SeqRange(Bounds(ss, cc)) : ~IsInf(b) /\ b[1] > 0 }
                  IN  IF fin = {} THEN QOne ELSE QMaxSet(fin)
-DynRec ==
-    IF c0 = <<>> THEN [has |-> FALSE]
-    ELSE [ has |-> TRUE, c0 |-> c0, f |-> F(rxns, c0), totals |-> BTimes(subs, c0),
-           ub |-> Bounds(subs, c0), scale |-> Scale(subs, c0), h |-> MaxEulerStep(subs, rxns, c0),
-           after |-> Euler(rxns, c0, MaxEulerStep(subs, rxns, c0)) ]
+(* Observations of the dynamics are made on the system restricted to its used substances     *)
+(* (the ODE builder of the library needs every substance to take part in a reaction).         *)
+DynRec(ss, rs, cc) ==
+    IF cc = <<>> THEN [has |-> FALSE]
+    ELSE LET f == F(rs, cc)
+             ub == Bounds(ss, cc)
+             fin == { b \in SeqRange(ub) : ~IsInf(b) /\ b[1] > 0 }
+             h == QMinSetSafe({ StepLimit(f, cc, ub, i) : i \in 1..Len(cc) } \cup {StepCap})
+         IN  [ has |-> TRUE, c0 |-> [i \in 1..Len(cc) |-> cc[i][1]], f |-> f, totals |-> BTimes(ss, cc),
+               ub |-> ub, scale |-> IF fin = {} THEN QOne ELSE QMaxSet(fin), h |-> h,
+               after |-> [i \in 1..Len(cc) |-> QAdd(cc[i], QMul(h, f[i]))] ]
+RedRec ==
+    LET us == UsedSeq(rxns, NS)
+        ss == RedSubs(subs, us)
+        rs == RedRxns(rxns, us)
+        cc == IF c0 = <<>> THEN <<>> ELSE RestrictVec(c0, us)
+    IN  [ subs |-> ss, rxns |-> rs, keys |-> KeySeq(ss), B |-> BMatrix(ss), poly |-> RhsPoly(rs, Len(ss)),
+          G |-> IF FirstOrder(rs) THEN GenMatrix(rs, Len(ss)) ELSE <<>>,
+          dyn |-> DynRec(ss, rs, cc) ]
 CaseRec ==
     [ in  |-> [ subs |-> subs, rxns |-> rxns, lines |-> SysLines(subs, rxns),
                 c0 |-> IF c0 = <<>> THEN <<>> ELSE [i \in 1..NS |-> c0[i][1]],
@@ -401,10 +434,6 @@ CaseRec ==
               THEN [ accept |-> FALSE, viol |-> [i \in 1..Len(rxns) |-> ViolSeq(rxns[i])],
                      anyviol |-> SetToSortSeq(AllViolatedKeys(subs, rxns), <) ]
               ELSE [ accept |-> TRUE, keys |-> KeySeq(subs), B |-> BMatrix(subs), N |-> NetMatrix(rxns),
-                     rank |-> RankB(subs), poly |-> RhsPoly(rxns, NS),
-                     G |-> IF FirstOrder(rxns) THEN GenMatrix(rxns, NS) ELSE <<>>,
-                     red |-> LET us == UsedSeq(rxns, NS)  rs == RedSubs(subs, us)
-                             IN  [ subs |-> rs, rxns |-> RedRxns(rxns, us), keys |-> KeySeq(rs), B |-> BMatrix(rs) ],
-                     dyn |-> DynRec ] ]
+                     rank |-> RankB(subs), red |-> RedRec ] ]
 Emit == Done => PrintT(<<"CASE", ToJson(CaseRec)>>)
 =============================================================================
